@@ -113,5 +113,15 @@ def roles(prog: Program) -> Roles:
                 if isinstance(n, ast.Assign) and _self_attr(n.targets[0]) and isinstance(n.value, (ast.Dict, ast.Call)):
                     r["variables"] = _self_attr(n.targets[0])
                     break
+    # the helper of write_pandas that runs the INSERT … SELECT FROM <frame> (found by what it does, not by its name)
+    r["insert_frame"] = "_insert_df"
+    pm = prog.modules.get("pandas_tools")
+    if pm is not None:
+        for q, f in pm.functions.items():
+            if q != "write_pandas" and any(isinstance(n, ast.Constant) and isinstance(n.value, str) and "INSERT INTO" in n.value.upper() for n in ast.walk(f)):
+                r["insert_frame"] = q
+                break
+        else:
+            r["insert_frame"] = "write_pandas" if "write_pandas" in pm.functions else "_insert_df"
     _cache[key] = r
     return r
